@@ -48,6 +48,13 @@ PROP = {'drive': ['Faults'],
              'after k < len(file) bytes must be rejected (D); a stream ending with EOF at k is the file cut at k and '
              'must be rejected for k before the end of the last data-carrying table (D); cuts inside the padding after '
              'it are observed only (G faults.tail, predicted exactly by the model)',
+             'table level: every decoder with a reader argument (head, maxp, OS/2 on io.Reader; post, kern, cff, GDEF, '
+             'GSUB, GPOS on parser.ReadSeekSizer) is called directly on sources failing with a non-EOF error at every '
+             'k < len(table), in three variants ((0, err) on the next call; (n > 0, err); a whole access refused): D '
+             'predicate "never a value after a failed read" (faults.decoder). The parser-based decoders rest on '
+             'C18_parser_fault/_error; os2/head/maxp use encoding/binary on an io.Reader and are D-only (no Lean model '
+             'of their read sequence). A ReaderAt with an unreadable REGION [a,b) goes beyond the property (sources '
+             'failing from an offset on) and is a diagnostic stream (faults.region)',
              'parser model: the source delivers f[0,k) and then ends; a source that returns n > 0 bytes together '
              'with a non-EOF error, or fails a read-ahead that merely touches k, makes operations fail earlier than '
              'needed (allowed by the property) and is not modelled'],
